@@ -1,7 +1,8 @@
 """C09 - deferred synchronisation never changes the physics: static necessary conditions on the operator words."""
 from ..core import AnalysisError, anchor
-from .. import cfront
-from ..cfront import walk, strip, callee_name, call_args, render, line_of
+from .. import cfront, normal
+from ..cfront import walk, strip, callee_name, call_args, render, line_of, is_assign
+import re
 from . import compose as C, x4
 from .x4 import Poly
 
@@ -785,7 +786,61 @@ def rule_discarded_updates(ctx, rule='R09.12'):
     ctx.covered(rule, 'direct updates of a saved-and-restored coordinate cache are re-applied after the restore', n, floor=3, samples=samples)
 
 
+def rule_sync_inputs(ctx, rule='R09.13'):
+    """R09.13: integrate() resets some members of the simulation every time it is called (r->dt_last_done = 0 before the
+    loop: "no step taken yet in this call"). A synchronisation completes the step that was left open, possibly during an
+    earlier call of integrate(); what it computes must therefore not be read from a member that integrate() has reset in
+    between - the pending half kick would be taken with step size 0. Effect/def-use rule: the members assigned a literal
+    before the main loop of reb_simulation_integrate_raw are not read by any synchronize function of an integrator (or by a
+    function it calls in its file)."""
+    tus = cfront.load_tus()
+    tu = tus['rebound.c']
+    fns = normal.with_new_helpers(tu, 'reb_simulation_integrate_raw')
+    reset = {}
+    for fn in fns:
+        for st in cfront.body(fn).get('inner', []):
+            if st.get('kind') in ('WhileStmt', 'ForStmt', 'DoStmt') and any(x.get('kind') == 'CallExpr' and callee_name(x) == 'reb_simulation_step' for x in walk(st)):
+                break
+            e = strip(st)
+            if is_assign(e) and e['opcode'] == '=' and strip(e['inner'][1], casts=True).get('kind') in ('FloatingLiteral', 'IntegerLiteral'):
+                m = re.match(r'^r\.(\w+)$', render(e['inner'][0]).replace(' ', ''))
+                if m:
+                    reset[m.group(1)] = line_of(e)
+    anchor(reset, 'members reset by reb_simulation_integrate_raw before its loop')
+    disp = tus['integrator.c'].func('reb_simulation_synchronize') if 'reb_simulation_synchronize' in tus['integrator.c'].funcs else None
+    anchor(disp is not None, 'reb_simulation_synchronize in integrator.c')
+    targets = sorted({callee_name(e) for e in walk(cfront.body(disp)) if e.get('kind') == 'CallExpr' and (callee_name(e) or '').endswith('_synchronize')})
+    anchor(len(targets) >= 5, 'synchronize functions dispatched by reb_simulation_synchronize (found %s)' % targets)
+    n = 0
+    for fname in targets:
+        cfile = next((c for c, t_ in tus.items() if fname in t_.funcs and cfront.body(t_.funcs[fname]) is not None and cfront.basename(t_.funcs[fname].get('_locfile') or t_.funcs[fname].get('_file')) == c), None)
+        if cfile is None:
+            continue
+        t_ = tus[cfile]
+        seen, todo = set(), [(fname, 0)]
+        while todo:
+            f_, d_ = todo.pop()
+            if f_ in seen or f_ not in t_.funcs or cfront.body(t_.funcs[f_]) is None:
+                continue
+            seen.add(f_)
+            for e in walk(cfront.body(t_.func(f_))):
+                if e.get('kind') == 'CallExpr' and callee_name(e) in t_.funcs and d_ < 3 and cfront.basename(t_.funcs[callee_name(e)].get('_locfile') or t_.funcs[callee_name(e)].get('_file')) == cfile:
+                    todo.append((callee_name(e), d_ + 1))
+        for f_ in sorted(seen):
+            body_ = cfront.body(t_.func(f_))
+            written = {id(strip(a_['inner'][0])) for a_ in walk(body_) if is_assign(a_) and a_['opcode'] == '='}
+            for e in walk(body_):
+                if e.get('kind') == 'MemberExpr' and e.get('name') in reset and render(e).replace(' ', '') == 'r.' + e['name'] and id(e) not in written:
+                    n += 1
+                    ctx.report(rule, '%s:%s' % (f_, e['name']), 'src/%s:%s %s (reached from %s)' % (cfile, line_of(e), f_, fname),
+                               'the synchronisation reads r->%s, which reb_simulation_integrate_raw sets to %s at the start of every call (src/rebound.c:%s): a step left open by one call of integrate() and completed in the next is completed with the reset value'
+                               % (e['name'], '0', reset[e['name']]))
+        n += 1
+    ctx.covered(rule, 'synchronize functions do not read members that integrate() resets on entry (%s)' % ', '.join(sorted(reset)), n, floor=5)
+
+
 def run(ctx):
+    rule_sync_inputs(ctx)
     rule_python_snapshot_pickup(ctx)
     rule_exact_finish(ctx)
     rule_frames(ctx)
